@@ -1,68 +1,23 @@
 (* SymbolsProofs.v — layer D of CodecSpec.v: the reference block decoder run on the bits the
    writer model emits for a token list.
 
-   BOTH STATEMENTS ARE FALSE AS WRITTEN (counterexamples proved below as
-   symbols_statement_false and apply_toks_expand_statement_false):
+   History.  The first versions of the two statements were false and were refuted in Coq
+   (the refutations are no longer here since the statements have been corrected):
 
-   1. symbols_statement quantifies over every output state st, including states whose
-      counter oavail st exceeds the number of bytes really held in rout st.  In such a state
-      copy_match copies nothing (the segment `firstn d (rout st)` is empty), so oavail does not
-      grow by the match length, while toks_ok assumes it does; the next distance check
-      `oavail st <? d` of Spec.symbols then fails.
-        st = mkost [] 0 1 0 []          (oavail = 1, no byte held)
-        ts = [TMatch 3 1; TMatch 3 2]   (toks_ok 32768 1 ts holds: 1 <= 1, then 2 <= 1 + 3)
+   1. symbols_statement without the premise  oavail st <= N.of_nat (length (rout st)) :
+      in a state whose counter oavail exceeds the bytes really held in rout, copy_match copies
+      nothing (the segment `firstn d (rout st)` is empty), so oavail does not grow by the match
+      length while toks_ok assumes it does; the next distance check of Spec.symbols fails.
+        st = mkost [] 0 1 0 [],  ts = [TMatch 3 1; TMatch 3 2],
         litlens = 256 zeros, 1, 1, 28 zeros;  distlens = 1, 1, 28 zeros
-      symbols gives BStop _ _ Corrupt instead of BEnd.
-      Proved instead: symbols_ok_partial, the same statement with the extra premise
-        oavail st <= N.of_nat (length (rout st))
-      (implied by the invariant oavail st = N.of_nat (length (rout st)) that Spec.inflate
-      maintains; symbols_ok_partial_eq is the instance with that equality).
+      gave BStop _ _ Corrupt instead of BEnd.
 
-   2. apply_toks_expand_statement: the third conjunct
+   2. apply_toks_expand_statement without the premise  olen st <= oavail st : the conjunct
         olen (apply_toks ts st) + (oavail st - olen st) = oavail (apply_toks ts st)
-      uses truncated subtraction and is false when olen st > oavail st:
-        ts = [], st = mkost [] 1 0 0 []   gives 1 + (0 - 1) = 1 <> 0.
-      Proved instead: apply_toks_expand_partial, the same statement with the extra premise
-        olen st <= oavail st.                                                              *)
+      uses truncated subtraction;  ts = [], st = mkost [] 1 0 0 []  gave 1 + (0 - 1) = 1 <> 0. *)
 From Verif Require Import CodecSpec HuffmanProofs.
 From Coq Require Import Lia ZifyBool ZifyNat ZifyN.
 Open Scope N_scope.
-
-(* ------------------------------------------------------------------ *)
-(* counterexamples                                                      *)
-
-Definition cx_litlens : list N := repeat 0 256 ++ [1; 1] ++ repeat 0 28.
-Definition cx_distlens : list N := [1; 1] ++ repeat 0 28.
-Definition cx_lt : trie :=
-  match mktrie 15 (map N.to_nat (trim cx_litlens)) with Some t => t | None => TEmpty end.
-Definition cx_dt : trie :=
-  match mktrie 15 (map N.to_nat (dist_lens_sent cx_distlens)) with Some t => t | None => TEmpty end.
-
-Lemma symbols_statement_false : ~ symbols_statement.
-Proof.
-  unfold symbols_statement. intros H.
-  specialize (H cx_litlens cx_distlens cx_lt cx_dt [TMatch 3 1; TMatch 3 2]
-                (mkost [] 0 1 0 []) [] 0 3%nat).
-  assert (H1 : length cx_litlens = 286%nat) by reflexivity.
-  assert (H2 : length cx_distlens = 30%nat) by reflexivity.
-  assert (H3 : mktrie 15 (map N.to_nat (trim cx_litlens)) = Some cx_lt) by (vm_compute; reflexivity).
-  assert (H4 : mktrie 15 (map N.to_nat (dist_lens_sent cx_distlens)) = Some cx_dt) by (vm_compute; reflexivity).
-  assert (H5 : nthN cx_litlens 256 <> 0) by (vm_compute; discriminate).
-  assert (H6 : Forall (tok_coded cx_litlens cx_distlens) [TMatch 3 1; TMatch 3 2]).
-  { repeat constructor; vm_compute; discriminate. }
-  assert (H7 : toks_ok 32768 (oavail (mkost [] 0 1 0 [])) [TMatch 3 1; TMatch 3 2]).
-  { cbn [toks_ok tok_ok tok_len oavail]. lia. }
-  assert (H8 : (length [TMatch 3 1; TMatch 3 2] < 3)%nat) by (cbn [length]; lia).
-  specialize (H H1 H2 H3 H4 H5 H6 H7 H8).
-  vm_compute in H. discriminate H.
-Qed.
-
-Lemma apply_toks_expand_statement_false : ~ apply_toks_expand_statement.
-Proof.
-  unfold apply_toks_expand_statement. intros H.
-  specialize (H [] (mkost [] 1 0 0 []) I eq_refl).
-  destruct H as [_ [_ [H _]]]. vm_compute in H. discriminate H.
-Qed.
 
 (* ------------------------------------------------------------------ *)
 (* seqN                                                                 *)
@@ -440,17 +395,9 @@ Proof. reflexivity. Qed.
 Lemma expand_rev_cons : forall t r h, expand_rev (t :: r) h = expand_rev r (expand_rev [t] h).
 Proof. intros t r h. destruct t; reflexivity. Qed.
 
-Definition apply_toks_expand_partial_statement : Prop :=
-  forall ts st, toks_ok 32768 (oavail st) ts -> oavail st = N.of_nat (length (rout st)) ->
-    olen st <= oavail st ->
-    rout (apply_toks ts st) = expand_rev ts (rout st) /\
-    oavail (apply_toks ts st) = N.of_nat (length (rout (apply_toks ts st))) /\
-    olen (apply_toks ts st) + (oavail st - olen st) = oavail (apply_toks ts st) /\
-    osyncs (apply_toks ts st) = osyncs st.
-
-Theorem apply_toks_expand_partial : apply_toks_expand_partial_statement.
+Theorem apply_toks_expand : apply_toks_expand_statement.
 Proof.
-  unfold apply_toks_expand_partial_statement.
+  unfold apply_toks_expand_statement.
   induction ts as [|t r IH]; intros st Hok Hinv Hle.
   - cbn [apply_toks fold_left expand_rev]. repeat split; try lia.
   - cbn [toks_ok] in Hok. destruct Hok as [Ht Hr].
@@ -505,22 +452,6 @@ Qed.
 
 (* ------------------------------------------------------------------ *)
 (* D: symbols round trip                                                *)
-
-Definition symbols_partial_statement : Prop :=
-  forall litlens distlens lt dt ts st rest p fuel,
-    length litlens = 286%nat -> length distlens = 30%nat ->
-    mktrie 15 (map N.to_nat (trim litlens)) = Some lt ->
-    mktrie 15 (map N.to_nat (dist_lens_sent distlens)) = Some dt ->
-    nthN litlens 256 <> 0 ->
-    Forall (tok_coded litlens distlens) ts ->
-    toks_ok 32768 (oavail st) ts ->
-    oavail st <= N.of_nat (length (rout st)) ->
-    (length ts < fuel)%nat ->
-    let lcodes := gen_codes litlens in
-    let dcodes := gen_codes distlens in
-    let bits := flat_map (token_bits lcodes dcodes) ts ++ sym_word lcodes 256 in
-    symbols fuel lt dt st (mkbs (bits ++ rest) p)
-      = BEnd (apply_toks ts st) (mkbs rest (p + N.of_nat (length bits))).
 
 Lemma symbols_core : forall litlens distlens lt dt,
   mktrie 15 (map N.to_nat (trim litlens)) = Some lt ->
@@ -596,15 +527,15 @@ Proof.
       f_equal. f_equal. rewrite !app_length, !bits_of_N_length. lia.
 Qed.
 
-Theorem symbols_ok_partial : symbols_partial_statement.
+Theorem symbols_ok : symbols_statement.
 Proof.
-  unfold symbols_partial_statement. cbv zeta.
+  unfold symbols_statement. cbv zeta.
   intros litlens distlens lt dt ts st rest p fuel _ _ Hlt Hdt H256 Hcoded Hok Hinv Hfuel.
   apply symbols_core; assumption.
 Qed.
 
 (* the instance for states that satisfy the invariant of Spec.inflate *)
-Theorem symbols_ok_partial_eq :
+Theorem symbols_ok_eq :
   forall litlens distlens lt dt ts st rest p fuel,
     length litlens = 286%nat -> length distlens = 30%nat ->
     mktrie 15 (map N.to_nat (trim litlens)) = Some lt ->
@@ -624,8 +555,6 @@ Proof.
   cbv zeta. apply symbols_core; try assumption. lia.
 Qed.
 
-Print Assumptions symbols_ok_partial.
-Print Assumptions symbols_ok_partial_eq.
-Print Assumptions apply_toks_expand_partial.
-Print Assumptions symbols_statement_false.
-Print Assumptions apply_toks_expand_statement_false.
+Print Assumptions symbols_ok.
+Print Assumptions symbols_ok_eq.
+Print Assumptions apply_toks_expand.
